@@ -765,6 +765,7 @@ static int real_main(int argc, char **argv)
         if (!strncmp(line, "end", 3)) {
             mon_alarm(0);
             cjv_op_idx = -2;
+            tn_release_pinned();
             log_counters("E");
             led_case_end();
             cjv_case_id = -1;
